@@ -1,4 +1,5 @@
 import CacheVerif.Deep.Janitor
+import CacheVerif.Generated.DeepCtor
 import CacheVerif.Proofs.DeepSource
 import CacheVerif.Proofs.LeafCache
 /-!
